@@ -19,11 +19,13 @@ import (
 	"fmt"
 	"math/big"
 	"os"
+	"path/filepath"
 	"strings"
 	"time"
 
 	"github.com/SAP/go-dblib/asetime"
 	"github.com/SAP/go-dblib/asetypes"
+	"verifharness/pk"
 	"verifharness/sx"
 )
 
@@ -980,20 +982,37 @@ func writeGen(path string) {
 	}
 }
 
+// genFlag collects repeated -gen arguments.
+type genFlag []string
+
+func (g *genFlag) String() string     { return strings.Join(*g, ",") }
+func (g *genFlag) Set(v string) error { *g = append(*g, v); return nil }
+
 func main() {
-	gen := flag.String("gen", "", "write Gen/GenC04.v here")
+	var gens genFlag
+	flag.Var(&gens, "gen", "write Gen/GenC04.v (and, named GenPkg.v, the tables of the package layer) here; may be repeated")
 	outp := flag.String("out", "", "write case file here")
 	flag.StringVar(&tier, "tier", "quick", "quick|thorough")
 	flag.StringVar(&prop, "prop", "C04", "C04|C05")
 	flag.Parse()
-	if *gen != "" {
-		writeGen(*gen)
+	for _, g := range gens {
+		if filepath.Base(g) == "GenPkg.v" {
+			pk.WriteGen(g) // the same tabulation as harness/cmd/pkgs -gen (the package leg of C04 is built on the Pkg models)
+		} else {
+			writeGen(g)
+		}
 	}
 	if *outp == "" {
 		return
 	}
 	rng = sx.NewRng(sx.EnvSeed())
 	out = sx.NewOut(*outp)
+	if prop == "C04PKG" { // development aid: the package leg alone
+		prop = "C04"
+		genPkgLeg()
+		out.Close()
+		return
+	}
 	// boundary enumerations first, then random structured cases, then malformed inputs
 	genNullsAndTables()
 	genBit()
@@ -1007,6 +1026,9 @@ func main() {
 	genDays()
 	genTicks()
 	genTickSweep()
+	if prop == "C04" {
+		genPkgLeg()
+	}
 	out.Close()
 	fmt.Printf("%s %s: %d cases\n", prop, tier, out.N)
 }
